@@ -230,13 +230,26 @@ Section WithRem.
 
   Definition count_facts (s : state) : nat := length (st_facts s).
 
-  (** expire: if the fact is expired, remove it (errors are logged only). *)
-  Definition expire (s : state) (id : string) (fact : json) (now : Z) : state * bool :=
+  (** expire: if the fact is expired, remove it; returns the state, whether
+      the fact was expired, and the error of the removal if it failed
+      ([return true, err] of IndexedState.expire / LinearState.expire: the
+      storage call of the removal failed, or the cascade under it did). *)
+  Definition expire (s : state) (id : string) (fact : json) (now : Z) : state * bool * option string :=
     if fact_expired fact now then
       let before := count_facts s in
-      let '(s', _) := rem_rec s id now in
-      (if (S (count_facts s') <? before)%nat then set_amb s' true else s', true)
-    else (s, false).
+      let '(s', o) := rem_rec s id now in
+      (if (S (count_facts s') <? before)%nat then set_amb s' true else s', true,
+       match o with Err e => Some e | _ => None end)
+    else (s, false, None).
+
+  (** What the iterating callers do with the error of [expire]:
+      IndexedState.search / doFindRules log it and carry on (the item counts
+      as expired); LinearState.search / doFindRules return it at once. *)
+  Definition expire_stops (k : skind) (err : option string) : option string :=
+    match err with
+    | None => None
+    | Some e => match k with Linear => Some e | Indexed => None end
+    end.
 
   (** Iterate over candidate ids: skip the ones no longer present, expire,
       re-match.  Result: (id, bindings list) of the matching live facts. *)
@@ -248,7 +261,10 @@ Section WithRem.
         match alookup id (st_facts s) with
         | None => search_ids s r pattern now acc
         | Some fact =>
-            let '(s1, expired) := expire s id fact now in
+            let '(s1, expired, err) := expire s id fact now in
+            match expire_stops (st_kind s) err with
+            | Some e => (s1, Err e)
+            | None =>
             if expired then search_ids s1 r pattern now acc
             else match core_match pattern fact [] with
                  | Ok [] => search_ids s1 r pattern now acc
@@ -257,6 +273,7 @@ Section WithRem.
                  | Panic w => (s1, Panic w)
                  | OutOfFuel => (s1, OutOfFuel)
                  end
+            end
         end
     end.
 
@@ -604,7 +621,8 @@ Fixpoint find_ids_idx (s : state) (ids : list string) (now : Z) (acc : list (str
       match alookup id (st_facts s) with
       | None => (s, Err "lost rule")
       | Some fact =>
-          let '(s1, expired) := expire st_rem_rec s id fact now in
+          (* the error of the purge is logged only (IndexedState.doFindRules) *)
+          let '(s1, expired, _) := expire st_rem_rec s id fact now in
           if expired then find_ids_idx s1 r now acc
           else match extract_rule fact true with
                | Ok (Some body) => find_ids_idx s1 r now ((id, body) :: acc)
@@ -627,7 +645,10 @@ Fixpoint find_ids_lin (s : state) (ids : list string) (event : json) (now : Z) (
           match jget "rule" fact with
           | None => find_ids_lin s r event now acc
           | Some rule =>
-              let '(s1, expired) := expire st_rem_rec s id fact now in
+              let '(s1, expired, err) := expire st_rem_rec s id fact now in
+              match err with
+              | Some e => (s1, Err e)   (* LinearState.doFindRules: return nil, err *)
+              | None =>
               if expired then find_ids_lin s1 r event now acc
               else match rule with
                    | JObj rm =>
@@ -645,6 +666,7 @@ Fixpoint find_ids_lin (s : state) (ids : list string) (event : json) (now : Z) (
                        end
                    | _ => find_ids_lin s1 r event now acc
                    end
+              end
           end
       end
   end.
